@@ -114,4 +114,43 @@ theorem idle_not_parked {s : BSt} {a : Nat} (hi : idleActor s a = true) :
   | none => rfl
   | some x => simp [h] at hi; simp [hi]
 
+theorem map_updAt {α β} (l : List α) (i : Nat) (f : α → α) (g : α → β) (hf : ∀ t, g (f t) = g t) :
+    (updAt l i f).map g = l.map g := by
+  apply List.ext_getElem?
+  intro j
+  simp only [updAt, List.getElem?_map, List.getElem?_mapIdx]
+  cases l[j]? with
+  | none => rfl
+  | some t => simp only [Option.map_some]; split <;> simp [hf]
+
+theorem mem_ins {α} (le : α → α → Bool) (x y : α) : ∀ (l : List α), y ∈ insSorted.ins le x l ↔ y = x ∨ y ∈ l
+  | [] => by simp [insSorted.ins]
+  | z :: zs => by
+    unfold insSorted.ins
+    split
+    · simp
+    · simp only [List.mem_cons, mem_ins le x y zs]
+      constructor
+      · rintro (h | h | h)
+        · exact Or.inr (Or.inl h)
+        · exact Or.inl h
+        · exact Or.inr (Or.inr h)
+      · rintro (h | h | h)
+        · exact Or.inr (Or.inl h)
+        · exact Or.inl h
+        · exact Or.inr (Or.inr h)
+
+theorem mem_insSorted {α} (le : α → α → Bool) (y : α) : ∀ (l : List α), y ∈ insSorted le l ↔ y ∈ l
+  | [] => by simp [insSorted]
+  | x :: xs => by
+    unfold insSorted
+    rw [mem_ins, mem_insSorted le y xs, List.mem_cons]
+
+theorem lgOf_setLg (s : BSt) (i j : Nat) (f : Lg → Lg) :
+    (s.setLg i f).lgOf j = if j = i ∧ j < s.lgs.length then f (s.lgOf j) else s.lgOf j := by
+  simp only [BSt.setLg, BSt.lgOf, getD_updAt]
+
+@[simp] theorem lgs_length_setLg (s : BSt) (i : Nat) (f : Lg → Lg) : (s.setLg i f).lgs.length = s.lgs.length := by
+  simp [BSt.setLg, updAt_length]
+
 end Backend.PC
